@@ -176,3 +176,56 @@ contract(EX + "_is_format_request", props=["C09", "C03"], params=dict(a=Ref), re
          requires=["a != None and live(a)", "implies(isinst(a, 'ast.Call'), field(a, 'func') != None and live(field(a, 'func')))"],
          raises={"ValueError": "not isinst(a, 'ast.Call') or not isinst(field(a, 'func'), 'ast.Name')"},
          ensures=[("explicit_tree_request", "result == (field(field(a, 'func'), 'id') == 'ResultTTree')")])
+
+# ---- get_as_ROOT: the final expression of a query that did not ask for a tree explicitly is written as one -----------------------------------
+TTREEREP = "func_adl_xAOD.common.result_ttree.cpp_ttree_rep"
+AMOD = external_class("ast.Module", ["ast.AST"])
+AEXPR = external_class("ast.Expr", ["ast.AST"])
+field("body", TList(RefOf(AEXPR)), cls=AMOD)
+uninterpreted("literal_text", [Str], Str)   # ghost: the str a quoted python literal denotes
+contract("ast.parse", assumed=True, params=dict(source=Str), result=RefOf(AMOD), fresh_result=True,
+         modifies=["alloc", "body@" + AMOD, "value"],
+         ensures=["result != None and len(field(result, 'body', '" + AMOD + "')) == 1 and is_new(field(result, 'body', '" + AMOD + "')[0]) and "
+                  "cls_is(field(result, 'body', '" + AMOD + "')[0], '" + AEXPR + "') and is_new(field(field(result, 'body', '" + AMOD + "')[0], 'value')) and "
+                  "cls_is(field(field(result, 'body', '" + AMOD + "')[0], 'value'), 'ast.Constant') and "
+                  "field(field(field(result, 'body', '" + AMOD + "')[0], 'value'), 'value', 'ast.Constant').kind == K_STR and "
+                  "field(field(field(result, 'body', '" + AMOD + "')[0], 'value'), 'value', 'ast.Constant').s == literal_text(source)"],
+         note="ast.parse of a quoted string literal (the only use in this code base): a module with one expression statement holding that constant")
+contract("func_adl.ast.func_adl_ast_utils.function_call", assumed=True, params=dict(function_name=Str, args=TList(Ref)), result=RefOf("ast.Call"), fresh_result=True,
+         modifies=["alloc", "func", "args", "keywords", "id"],
+         ensures=["result != None and is_new(field(result, 'func')) and cls_is(field(result, 'func'), 'ast.Name') and field(field(result, 'func'), 'id') == function_name and "
+                  "seq_eq(field(result, 'args'), args) and len(field(result, 'keywords')) == 0"],
+         note="func_adl: ast.Call(ast.Name(function_name), args, [])")
+
+
+def const_text(n):
+    return field(n, "value", "ast.Constant").s
+
+
+contract(TR + "query_ast_visitor.get_as_ROOT", props=["C03", "C09"],
+         params=dict(self=QV, node=Ref), result=RefOf(TTREEREP),
+         requires=CVC_REQUIRES + [("node", "node != None and live(node)")],
+         modifies=CVC_MODIFIES + ["body@" + AMOD, "value", "func", "args", "keywords", "id", "elts", "_values@" + TUPC, "_scope", "_sequence", "_iterator", "_node", "_type@" + SEQ_CLS],
+         may_raise=["Exception"], strict=False,
+         local_sorts=dict(r=REP, values=REP, ast_ttree=RefOf("ast.Call"), col_names=Ref, g_n=Int, g_m=Int, g_ok=Bool, g_dk=Bool),
+         ghost_init=["g_n = 0", "g_m = 0 - 1", "g_ok = False", "g_dk = False"],
+         ghost={"after:col_names = ast.List(elts=list(": [
+                    "g_dk = seq_eq(field(col_names, 'elts'), dict_keys(field(values, '_values', '" + DICTC + "')))"],
+                "after:col_names = ast.List(elts=[": [
+             "g_n = len(field(col_names, 'elts'))", "g_m = len(field(values, '_values', '" + TUPC + "'))",
+             "g_ok = all(const_text(field(col_names, 'elts')[k]) == literal_text(\"'col\" + str_from_int(k) + \"'\") for k in range(0, len(field(col_names, 'elts'))))"]},
+         loops={"comp1": dict(sorts={"_comp1": TList(Ref)}, modifies=["alloc", "body@" + AMOD, "value"],
+                              invariant=[("L.len", "len(_comp1) == _i"),
+                                         ("L.names", "all(_comp1[k] != None and is_new(_comp1[k]) and cls_is(_comp1[k], 'ast.Constant') and "
+                                                     "const_text(_comp1[k]) == literal_text(\"'col\" + str_from_int(k) + \"'\") for k in range(0, _i))")])},
+         ensures=CVC_ENSURES + [
+             ("an_explicit_tree_request_is_returned_as_it_is@C03", "implies(isinst(final_r, '" + TTREEREP + "'), result == final_r)"),
+             ("anything_but_a_sequence_is_refused@C09", "isinst(final_r, '" + TTREEREP + "') or isinst(final_r, '" + SEQ_CLS + "')"),
+             ("otherwise_written_through_ResultTTree@C03",
+              "implies(not isinst(final_r, '" + TTREEREP + "'), final_ast_ttree != None and is_new(final_ast_ttree) and result == rep_of(final_ast_ttree) and "
+              "field(field(final_ast_ttree, 'func'), 'id') == 'ResultTTree' and len(field(final_ast_ttree, 'args')) == 4 and field(final_ast_ttree, 'args')[0] == node and "
+              "const_text(field(final_ast_ttree, 'args')[2]) == literal_text('\"' + field(self, '_prefix') + '_tree\"'))"),
+             ("one_default_name_per_value@C03", "implies(not isinst(final_r, '" + TTREEREP + "') and isinst(final_values, '" + TUPC + "'), final_g_n == final_g_m)"),
+             ("dict_keys_name_the_columns_in_order@C03", "implies(not isinst(final_r, '" + TTREEREP + "') and isinst(final_values, '" + DICTC + "'), final_g_dk)"),
+             ("default_names_are_positional@C03", "implies(not isinst(final_r, '" + TTREEREP + "') and isinst(final_values, '" + TUPC + "'), final_g_ok)"),
+         ])
